@@ -2,10 +2,26 @@
 
 Two correspondence streams (see harness/c07/main.cpp and lean/FeatModel/Driver/C07.lean):
   control : the stopping-criterion state machine of IterativeSolver at double, fed with dyadic / non-finite defects
-  solvers : sessions of apply()/correct() calls on one real PCG / Richardson / PCR / BiCGStab object at the exact scalar Q
+  solvers : sessions of apply()/correct() calls on one real PCG / Richardson / PCR / PMR / BiCGStab object at the exact scalar Q
 The oracle below is independent Python (fractions): it recomputes the true residual ||F(b - A x)|| from the returned
 iterate, a dense reference solution, and judges the reported status against the configured limits and the defects
 the solver produced.
+
+Findings (standard mechanism: executed and judged on every run, matched against KNOWN_FINDINGS.json by signature):
+  c07-edge:F2  BiCGStab's half-step test returns 'success' before min_iter iterations
+  c07-edge:F3  'success' judged from the stale initial defect when the defect computation is skipped
+               (default skip_defect_calc, min_iter >= max_iter): the true residual violates the tolerances
+  (F-C07-1, BiCGStab returning Status::undefined on an already converged initial defect, is fixed in /repo; its input
+  stays in the corpus and must now give success with 0 iterations.)
+Documented observations that are *outside* the property and therefore accepted by the oracle:
+  F-C07-4  PCG/PCR keep iterating while num_iter < min_iter even when the defect is exactly 0; the next step is 0/0
+           (division-by-zero abort of the exact scalar, NaN -> 'aborted' at floating point).  The property speaks about
+           runs that return a status for systems "within each method's scope"; an exactly zero residual before min_iter
+           is a degenerate Krylov space (breakdown), which only the exact scalar hits; counted as
+           input class 'breakdown-forced-by-min-iter'.
+  F-C07-5  _set_initial_defect returns success for def_init < tol_abs_low without testing tol_abs.  This differs from
+           is_converged only for the contradictory setting tol_abs_low > tol_abs, for which the property's "configured
+           relative/absolute tolerances" has no consistent reading; modelled as it is (theorem C07.success_initial).
 """
 import json
 import math
@@ -26,7 +42,7 @@ EPS2 = Fr(1, 2 ** 104)  # sqr(eps) for double and for Q
 OVERSIZE = 3000000       # characters of one implementation output line (largest seen on the unchanged tree: 2.5e6)
 
 # measured while the oracle runs; written into the evidence file
-STATS = {"terminal_status": {}, "tagged": {}, "max_iters_seen": 0, "exact_reference_hits": 0,
+STATS = {"terminal_status": {}, "input_classes": {}, "max_iters_seen": 0, "exact_reference_hits": 0,
          "true_residual_checks": 0, "pair_checks": 0}
 
 
@@ -353,11 +369,11 @@ def fmt_mat(a):
 
 
 def gen_solve(rng, tier):
-    kind = rng.choice(["pcg", "pcg", "pcg", "rich", "rich", "pcr", "bicgstab", "bicgstab"])
+    kind = rng.choice(["pcg", "pcg", "pcg", "rich", "rich", "pcr", "pmr", "bicgstab", "bicgstab"])
     n = rng.choice([1, 2, 2, 3, 3, 4, 4, 5, 6] if tier == "quick" else [1, 2, 3, 3, 4, 4, 5, 5, 6, 7])
     tags = []
     # matrix class
-    if kind in ("pcg", "pcr"):
+    if kind in ("pcg", "pcr", "pmr"):
         mc = rng.choice(["spd", "spd", "spd", "spd", "nonsym", "indef"])
     elif kind == "rich":
         mc = rng.choice(["spd", "nonsym", "nonsym", "indef"])
@@ -450,6 +466,8 @@ def gen_solve(rng, tier):
         # exact rationals roughly double in length per Krylov iteration once the method leaves its scope
         if kind == "bicgstab":
             cap = 6
+        elif kind == "pmr":
+            cap = 5  # no finite termination: the rationals double per iteration
         elif mc == "spd" and pclass in ("none", "jacobi", "spd"):
             cap = 9 if tier == "quick" else 10
         else:
@@ -606,7 +624,7 @@ def in_scope(sc):
     if not free:
         return False
     aff = [[sc.a[i][j] for j in free] for i in free]
-    if sc.kind in ("pcg", "pcr"):
+    if sc.kind in ("pcg", "pcr", "pmr"):
         if not is_spd(aff):
             return False
         if sc.m is not None:
@@ -631,11 +649,11 @@ def oracle_solve(case, out):
     if is_abnormal(out):
         if out.startswith("ABORT") and not scope:
             # breakdown (division by zero of the exact scalar; NaN/inf at floating point) outside the method's scope
-            bump(STATS["tagged"], "breakdown-outside-scope")
+            bump(STATS["input_classes"], "breakdown-outside-scope")
             return None
         if out.startswith("ABORT") and cfg.min_iter >= 2:
-            # min_iter forces iterations after the residual became exactly zero: 0/0 (FINDINGS F-C07-4)
-            bump(STATS["tagged"], "breakdown-forced-by-min-iter")
+            # min_iter forces iterations after the residual became exactly zero: 0/0 (observation F-C07-4 of the module docstring)
+            bump(STATS["input_classes"], "breakdown-forced-by-min-iter")
             return None
         return "solver session within the method's scope ended with " + out
     free = [i for i in range(sc.n) if i not in sc.cons]
@@ -654,7 +672,7 @@ def oracle_solve(case, out):
             if exact_scope and (st != 2 or it > len(free)):
                 return "solve %d: SPD system in exact arithmetic: expected the dense reference solution within %d " \
                        "iterations, got status %s after %d iterations" % (k, len(free), ST_NAMES.get(st, st), it)
-        bump(STATS["tagged"], "oversize-output-not-fully-judged")
+        bump(STATS["input_classes"], "oversize-output-not-fully-judged")
         return None
     try:
         res = parse_solve_out(out, sc.n)
@@ -662,6 +680,7 @@ def oracle_solve(case, out):
         return "unparsable implementation output (%s): %s" % (e, out[:200])
     if len(res) != len(sc.solves):
         return "number of result records differs from the number of solves"
+    edge = None  # a known-finding class seen in this session (reported only if nothing else fails)
     for k, ((mode, x0, b, re), r) in enumerate(zip(sc.solves, res)):
         tag = "solve %d (%s): " % (k, "apply" if mode == "a" else "correct")
         st = r["status"]
@@ -669,12 +688,6 @@ def oracle_solve(case, out):
             return tag + "the right-hand side was modified"
         if r["member"] != st:
             return tag + "get_status() differs from the returned status"
-        if st == 0 and sc.kind == "bicgstab" and r["iters"] == 0 and len(r["hist"]) == 1 and \
-                (r["d0"] < cfg.tol_abs_low or r["d0"] <= EPS2):
-            # FINDINGS F-C07-1: BiCGStab returns Status::undefined when the initial defect already meets the
-            # stopping criterion; tagged (not judged) so that the check stays usable until the defect is repaired
-            bump(STATS["tagged"], "bicgstab-undefined-on-initial-convergence")
-            st = 2
         if st in (0, 1):
             return tag + "returned status %s" % ST_NAMES[st]
         early_abort = (sc.kind == "bicgstab" and st == 3 and not r["hist"])
@@ -737,7 +750,7 @@ def oracle_solve(case, out):
             if why:
                 return tag + "before the preconditioner failure: " + why
         elif half_exit:
-            # BiCGStab half step: direct is_diverged / is_converged test (no min_iter; see FINDINGS)
+            # BiCGStab half step: direct is_diverged / is_converged test (no min_iter: finding c07-edge:F2)
             why = judge_run(cfg, seen[:-1], [1] * it) if it >= 1 else None
             if why:
                 return tag + why
@@ -747,7 +760,7 @@ def oracle_solve(case, out):
             if st == 2 and (cfg.diverged(dh, seen[0]) or not cfg.converged(dh, seen[0])):
                 return tag + "half-step 'success' but the defect does not meet the tolerances"
             if st == 2 and it < cfg.min_iter:
-                bump(STATS["tagged"], "bicgstab-half-step-success-before-min-iter")
+                edge = edge or F2_MSG % (k, it, cfg.min_iter)
         else:
             statuses = [1] * it + [st]
             why = judge_run(cfg, seen, statuses, exhausted_ok=False)
@@ -762,7 +775,7 @@ def oracle_solve(case, out):
                 if not why:
                     half_exit = computed_last = True
                     if st == 2 and it < cfg.min_iter:
-                        bump(STATS["tagged"], "bicgstab-half-step-success-before-min-iter")
+                        edge = edge or F2_MSG % (k, it, cfg.min_iter)
             if why:
                 return tag + why
         # the true residual of the returned iterate
@@ -779,9 +792,9 @@ def oracle_solve(case, out):
         else:
             # fixed-iteration mode with skipped defect computation: the status is judged from the stale initial defect
             if st == 2 and not (true_res <= cfg.tol_abs and (true_res <= cfg.tol_rel * d0_true or true_res <= cfg.tol_abs_low)):
-                bump(STATS["tagged"], "skipped-defect-success-with-residual-above-tolerance")
+                edge = edge or F3_MSG % (k, it, fs(true_res), fs(r["d1"]))
             else:
-                bump(STATS["tagged"], "skipped-defect-final")
+                bump(STATS["input_classes"], "skipped-defect-final")
         if st == 2 and it == 0 and r["x"] != xs:
             return tag + "iterate changed although no iteration was performed"
         # constrained dofs are never touched when the filter is respected by the preconditioner
@@ -824,7 +837,7 @@ def oracle_solve(case, out):
             if res[i]["raw"] != res[j]["raw"]:
                 return "solves %d and %d (%s, same right-hand side%s) gave different results on the same solver object" % (
                     i, j, "apply" if mi == "a" else "correct", ", different start vectors" if xi != xj else "")
-    return None
+    return edge
 
 
 def oracle(case, out):
@@ -859,50 +872,17 @@ def canon(out):
 
 
 def signature(case, out, why):
+    if why and why.startswith("[c07-edge:"):
+        return why[1:why.index("]")]
     t = case.split()
     return "%s:%s" % (" ".join(t[:2]), (why or "")[:60])
 
 
-# Defects / deviations of FEAT found while building this check (reproduced by the model, *tagged* by the oracle so that
-# the check stays green; /repo unchanged).  Each entry: id, tag counted in evidence, exact input, observed, expected.
-FINDINGS = [
-    {"id": "F-C07-1", "severity": "defect",
-     "tag": "bicgstab-undefined-on-initial-convergence",
-     "where": "kernel/solver/bicgstab.hpp BiCGStab::_apply_intern: when _set_initial_defect returns success/aborted the "
-              "while(status == progress) loop is skipped and the function falls through to 'return Status::undefined'",
-     "input": "solve bicgstab 2 2 1 1 3 none none 1/1000000 1000000000 0 1000000000 1000000000000 19/20 0 10 0 1 1 2 "
-              "c 1 1 3 4 0 a 7 7 0 0 0",
-     "observed": "R 0 0 0/1 0/1 2 1/1 1/1 1 0 H 1 0/1 | R 0 0 0/1 0/1 2 0/1 0/1 1 0 H 1 0/1  (Status::undefined twice)",
-     "expected": "success with 0 iterations (PCG on the same line: R 2 0 ...); status_success(undefined) is false, so "
-                 "an outer solver using BiCGStab as preconditioner/coarse solver aborts on an already solved system"},
-    {"id": "F-C07-2", "severity": "deviation",
-     "tag": "bicgstab-half-step-success-before-min-iter",
-     "where": "bicgstab.hpp half-step check calls is_converged directly, bypassing the min_iter rule of _analyse_defect",
-     "input": "solve bicgstab 1 2 none none 1/2 1000000000 0 1000000000 1000000000000 19/20 3 9 0 1 1 1 a 0 1 0",
-     "observed": "R 2 1 1/1 0/1 1 1/2 1 2 H 1 1/1  (success after 1 iteration, min_iter = 3)",
-     "expected": "at least min_iter iterations"},
-    {"id": "F-C07-3", "severity": "property violation on a corner configuration",
-     "tag": "skipped-defect-success-with-residual-above-tolerance",
-     "where": "iterative.hpp _set_new_defect: with skip_def_calc (default true), min_iter >= max_iter, no plot, no "
-              "stagnation control the defect is never recomputed; is_converged is evaluated on the initial defect, so "
-              "tol_rel >= 1 (or def_init == tol_abs_low) yields 'success' whatever the iterate is",
-     "input": "solve rich 1 1 none none 1 1000000000 0 1000000000 1000000000000 19/20 2 2 0 1 3 1 a 0 1 0",
-     "observed": "R 2 2 1/1 1/1 1 -3/1 1 2 H 1 1/1  (success, def_final 1, x = -3, true residual 4 > tol_rel*def_init = 1); "
-                 "with skip_defect_calc(false): R 5 2 1/1 4/1 ... (max_iter, defect 4)",
-     "expected": "a status computed from the defect of the returned iterate"},
-    {"id": "F-C07-4", "severity": "observation",
-     "tag": "breakdown-forced-by-min-iter",
-     "where": "PCG/PCR keep iterating while num_iter < min_iter even when the defect is exactly 0: 0/0",
-     "input": "solve pcg 1 2 none none 1/2 1000000000 0 1000000000 1000000000000 19/20 3 9 0 1 1 1 a 0 1 0",
-     "observed": "ABORT:Q:_division_by_zero (NaN -> Status::aborted at floating point)", "expected": "success"},
-    {"id": "F-C07-5", "severity": "observation",
-     "tag": None,
-     "where": "_set_initial_defect returns success for def_init < tol_abs_low without testing tol_abs (only matters "
-              "for tol_abs_low > tol_abs)",
-     "input": "solve pcg 1 2 none none 1/1000000 1/100 1/2 1000000000 1000000000000 19/20 0 9 0 1 1 1 a 0 1/4 0",
-     "observed": "R 2 0 1/4 1/4 1 0/1 1 2 H 1 1/4  (success with defect 1/4 > tol_abs = 1/100)",
-     "expected": "modelled as it is (C07.success_initial)"},
-]
+F2_MSG = "[c07-edge:F2] solve %d: BiCGStab returned 'success' from its half-step test after %d iteration(s) although " \
+         "min_iter = %d: not consistent with the configured limits"
+F3_MSG = "[c07-edge:F3] solve %d: 'success' after %d iteration(s) with skipped defect computation (skip_defect_calc, " \
+         "min_iter >= max_iter): the true residual %s of the returned iterate violates the tolerances; the status was " \
+         "judged from the stale stored defect %s"
 
 CORPUS = [
     # each terminal status of the control machine
@@ -919,11 +899,18 @@ CORPUS = [
     "solve rich 2 2 1 1 3 unit 1 0 mat 0 0 0 1/3 0 1/1000 1000000000 0 1000000000 1000000000000 19/20 0 10 0 1 1/2 2 a 5 5 0 2 0 c 1 1 1 2 0",
     "solve pcr 3 2 -1 0 -1 2 -1 0 -1 2 none none 0 1000000000 0 1000000000 1000000000000 19/20 0 9 0 1 1 1 c 1 0 0 1 2 3 0",
     "solve bicgstab 2 3 1 -1 2 none none 0 1000000000 0 1000000000 1000000000000 19/20 0 9 0 1 1 2 a 1 1 1 2 0 c 0 0 1 2 0",
-    # Richardson with a diverging damping parameter and a fixed iteration count (FINDINGS F-C07-3)
+    "solve pmr 2 2 1 1 3 none mat 1/2 0 0 1/3 0 1/100 1000000000 0 1000000000 1000000000000 19/20 0 5 0 1 1 2 a 9 9 1 2 0 c 1 1 1 2 2",
+    # Richardson with a diverging damping parameter and a fixed iteration count: open finding c07-edge:F3
     "solve rich 1 1 none none 1 1000000000 0 1000000000 1000000000000 19/20 2 2 0 1 3 1 a 0 1 0",
-    # BiCGStab half-step success before min_iter (FINDINGS F-C07-2)
+    # BiCGStab half-step success before min_iter: open finding c07-edge:F2
     "solve bicgstab 1 2 none none 1/2 1000000000 0 1000000000 1000000000000 19/20 3 9 0 1 1 1 a 0 1 0",
-] + [f["input"] for f in FINDINGS]
+    # F-C07-1 (fixed in /repo, c0d18e9d5): BiCGStab on an already converged initial defect -> success, 0 iterations
+    "solve bicgstab 2 2 1 1 3 none none 1/1000000 1000000000 0 1000000000 1000000000000 19/20 0 10 0 1 1 2 "
+    "c 1 1 3 4 0 a 7 7 0 0 0",
+    # observations F-C07-4 (0/0 forced by min_iter) and F-C07-5 (initial check ignores tol_abs)
+    "solve pcg 1 2 none none 1/2 1000000000 0 1000000000 1000000000000 19/20 3 9 0 1 1 1 a 0 1 0",
+    "solve pcg 1 2 none none 1/1000000 1/100 1/2 1000000000 1000000000000 19/20 0 9 0 1 1 1 a 0 1/4 0",
+]
 
 
 def main(argv):
